@@ -22,6 +22,7 @@ import (
 	"github.com/ccbrown/api-fu/graphql/token"
 	"github.com/ccbrown/api-fu/graphql/validator"
 
+	"verifharness/cmd/c03/vld"
 	"verifharness/internal/hx"
 	"verifharness/internal/rng"
 	"verifharness/internal/sexp"
@@ -586,7 +587,15 @@ func stageNode(name string, f func() sexp.Node) (n sexp.Node, crashed bool) {
 	return n, len(n.List) == 2 && n.List[1].Sym == "crashed"
 }
 
-func stages(api, q, vars, op string, world, weirdErr int) sexp.Node {
+// front: what the composed front half (Pipe/Compose.v parse_and_validate_bytes) is compared with:
+// the locations of the syntax errors in order, or of the validation errors (one list per error)
+type frontObs struct {
+	ok    bool
+	plocs []sexp.Node
+	vlocs []sexp.Node
+}
+
+func stages(api, q, vars, op string, world, weirdErr int, fo *frontObs) sexp.Node {
 	s := buildSchema(world, weirdErr)
 	vm, _ := parseVars(vars)
 	out := []sexp.Node{}
@@ -594,8 +603,12 @@ func stages(api, q, vars, op string, world, weirdErr int) sexp.Node {
 	pn, crashed := stageNode("parse", func() sexp.Node {
 		d, errs := parser.ParseDocument([]byte(q))
 		doc = d
+		for _, e := range errs {
+			fo.plocs = append(fo.plocs, sexp.L(sexp.Int(e.Location.Line), sexp.Int(e.Location.Column)))
+		}
 		return sexp.T("parse", sexp.Int(len(errs)))
 	})
+	fo.ok = !crashed
 	out = append(out, pn)
 	if crashed || pn.List[1].Int.Sign() != 0 {
 		return sexp.T("stages", out...)
@@ -608,8 +621,17 @@ func stages(api, q, vars, op string, world, weirdErr int) sexp.Node {
 			var actual int
 			rules = append(rules, validator.ValidateCost(op, vm, 1000, &actual, graphql.FieldCost{Resolver: 1}))
 		}
-		return sexp.T("validate", sexp.Int(len(validator.ValidateDocument(d, s, graphql.FeatureSet{}, rules...))))
+		verrs := validator.ValidateDocument(d, s, graphql.FeatureSet{}, rules...)
+		for _, e := range verrs {
+			var ls []sexp.Node
+			for _, l := range e.Locations {
+				ls = append(ls, sexp.L(sexp.Int(l.Line), sexp.Int(l.Column)))
+			}
+			fo.vlocs = append(fo.vlocs, sexp.L(ls...))
+		}
+		return sexp.T("validate", sexp.Int(len(verrs)))
 	})
+	fo.ok = fo.ok && !crashed
 	out = append(out, vn)
 	if crashed || vn.List[1].Int.Sign() != 0 || api == "validate" {
 		return sexp.T("stages", out...)
@@ -631,6 +653,22 @@ func stages(api, q, vars, op string, world, weirdErr int) sexp.Node {
 	return sexp.T("stages", out...)
 }
 
+const frontMaxBytes = 1500
+
+var hostileVS *sexp.Node
+
+// the hostile schema in the validator model's encoding (the same for every world: the worlds
+// differ in what resolvers return).  DateTime and LongInt accept string / integer literals
+// depending on their VALUE, which the kind-level scalars of Vld/Ast.v cannot say: they are listed
+// under "vdep" and the check leaves out documents that hold a literal at such a type.
+func hostileVSchema() sexp.Node {
+	if hostileVS == nil {
+		n := vld.SchemaSexp(buildSchema(0, 0), map[string]string{"DateTime": "custom:str", "LongInt": "custom:int"})
+		hostileVS = &n
+	}
+	return *hostileVS
+}
+
 func respNode(o outcome) sexp.Node {
 	if o.resp == nil {
 		return sexp.T("resp", sexp.Sym("none"))
@@ -648,13 +686,24 @@ func respNode(o outcome) sexp.Node {
 func emit(stream, api, q, vars, op string, world, weirdErr int) sexp.Node {
 	o := runCase(api, q, vars, op, world, weirdErr)
 	st := sexp.T("stages")
+	var fo frontObs
 	if api != "serve" {
-		st = stages(api, q, vars, op, world, weirdErr)
+		st = stages(api, q, vars, op, world, weirdErr, &fo)
 	}
-	return sexp.T("case", sexp.T("stream", sexp.Sym(stream)), sexp.T("api", sexp.Sym(api)),
+	fields := []sexp.Node{sexp.T("stream", sexp.Sym(stream)), sexp.T("api", sexp.Sym(api)),
 		sexp.T("query", sexp.Str(q)), sexp.T("vars", sexp.Str(vars)), sexp.T("op", sexp.Str(op)),
 		sexp.T("world", sexp.Int(world), sexp.Int(weirdErr)), st,
-		sexp.T("outcome", sexp.Sym(o.class), sexp.Str(o.detail)), respNode(o))
+		sexp.T("outcome", sexp.Sym(o.class), sexp.Str(o.detail)), respNode(o)}
+	// the front half of the composed model (scanner + parser + validator models from the bytes) is
+	// run on every request whose validation is the plain one (no cost rule) and whose text is short
+	if fo.ok && (api == "execute" || api == "subscribe") && len(q) <= frontMaxBytes {
+		fields = append(fields, sexp.T("front",
+			sexp.T("vschema", hostileVSchema()),
+			sexp.T("vdep", sexp.L(sexp.Str("DateTime"), sexp.Str("LongInt"))),
+			sexp.T("plocs", sexp.L(fo.plocs...)),
+			sexp.T("vlocs", sexp.L(fo.vlocs...))))
+	}
+	return sexp.T("case", fields...)
 }
 
 func main() {
